@@ -1196,6 +1196,11 @@ class GradLifetimeOracle(Observer):
     def attach(self, w):
         self.exp = {}  # handle -> ("none",) | ("val", bytes, shape) | ("dc",)
         self.iters = {}
+        self.lingering = set()
+
+    def before(self, w, ev):
+        # views left over from a cleared family that still carry their old .base link
+        self.lingering = {h for h, t in w.T.items() if t.base is not None and t.creator is None}
 
     @staticmethod
     def _state(w, h):
@@ -1320,6 +1325,8 @@ class GradLifetimeOracle(Observer):
                 if role == "stale_view" and kind == "lost":
                     self.exp[h] = cur
                     continue
+                if h in self.lingering and w.T[h].base is None:
+                    role = "stale_view_detached"  # its lingering .base link was just dropped by a use
                 if w.violation(
                     "C07",
                     f"C07.grad_{kind}",
